@@ -2083,6 +2083,22 @@ def functions():
         return "Definition g_fingerprint_path (lstat : option bool) (link_target file_content : option (list Z)) : option (fingerprint D) :=\n  %s." % text
     out.append(("fingerprint_path", "src/bin/copia/meta.rs fingerprint_path", None, t_fingerprint_path))
 
+    def t_discover_fps():
+        src = read("src/bin/copia/meta.rs")
+        params, ret, body = R.find_fn(src, "discover_local_fingerprints", None)
+        if [n for n, _ in params] != ["root"]:
+            raise Unsupported("signature of discover_local_fingerprints is %s" % params)
+        if not re.search(r"pub type FpMap\s*=\s*BTreeMap<PathBuf,\s*Fingerprint>;", read("src/bin/copia/reconcile.rs")):
+            raise Unsupported("FpMap is no longer BTreeMap<PathBuf, Fingerprint>")
+        spec = dict(try_transparent=True, paths={"Ok": "Some"},
+                    calls={"FpMap::new": ("[]", "FpMap"), "discover_local_files": ("files (* {0} *)", "Vec<PathBuf>"), ".join": ("{1} (* {0} *)", "PathBuf"),
+                           "fingerprint_path": ("fp_of {0}", "Option<Fingerprint>")},
+                    updates={"out.insert": "al_insert path_cmp {1} {2} {0}"}, ok=lambda s_: s_)
+        fn = Fn(spec)
+        text = fn.block(body, {"root": "Path"}, Ctx(val=(lambda x: x), ret=(lambda x: x), fall=None))
+        return "Definition g_discover_local_fingerprints (files : list (list Z)) (fp_of : list Z -> option (fingerprint D)) : list (list Z * fingerprint D) :=\n  %s." % text
+    out.append(("discover_local_fingerprints", "src/bin/copia/meta.rs discover_local_fingerprints", None, t_discover_fps))
+
     def t_staging_name():
         src = read("src/bin/copia/serve.rs")
         params, ret, body = R.find_fn(src, "create_staging", None)
@@ -3065,7 +3081,7 @@ GROUPS = {
     "ArchiveSave": ("Model.ArchiveSys", "archivesys", ["archive_save"]),
     "OneWaySys": ("Model.OneWaySys", "onewaysys", ["tmp_path", "deliver_local", "deliver_pull"]),
     "OneWayRun": ("Model.Glob Model.Plan Model.OneWay", "onewayrun", ["run_local"]),
-    "Fingerprint": ("Model.Reconcile", "fingerprintg", ["fingerprint_path"]),
+    "Fingerprint": ("Model.Reconcile", "fingerprintg", ["fingerprint_path", "discover_local_fingerprints"]),
     "LocalScan": ("Model.Glob Model.Plan Model.OneWay", "localscan", ["mtime_secs", "discover_local_with_meta"]),
     "ListingParse": ("Model.Glob Model.Plan Model.Listing", "listingparse", ["parse_listing"]),
     "OneWayPrint": ("Model.Glob Model.Plan Model.OneWay", "onewayprint", ["print_plan", "report"]),
